@@ -16,8 +16,16 @@ prints what it observed.
     <tid> reg <caller> <callee>
     <tid> bnew <0|1> | bsub | genter | gexit | gdetach | bump | acq
     <tid> cut <label> | panic <k>          -> ok | REJECT <why>
+    <tid> companion                        -> ok           another caller in flight (started while the target is suspended)
+    <tid> wait <k> | woken <k>             -> ok | REJECT  a companion parks on / is woken from the computing entry of k
     0 dropped                              -> ok | REJECT <why>
     0 settled | 0 end                      -> comp=[…] bp=[…] batches=<submitted>/<created>
+                                              | REJECT lost wake-up …   (a companion the model woke was never woken by the code)
+
+The model has no separate "notify": a parked task can be woken as soon as the entry is gone (`wake` is enabled iff
+`comp k = none`).  The driver therefore fires `wake` for every parked companion at the moment the model removes the
+entry (completion, drop glue of a cancel, unwinding), remembers it, and requires the code's `woken` for each of them
+before the next `settled` / `end` marker (by then the harness has let every runnable task run).
 
 Unknown / malformed line -> `bad-op`.
 -/
@@ -38,6 +46,10 @@ structure D where
   cutPending : Bool := false
   keys : List Nat := []
   rejects : Nat := 0
+  /-- trace tasks that are other callers in flight (only their waits are traced) -/
+  companions : List Nat := []
+  /-- (trace task, key): woken in the model because the entry was removed, not yet confirmed by the code -/
+  pendingWake : List (Nat × Key) := []
 
 def lookup {α} (l : List (Nat × α)) (k : Nat) : Option α := (l.find? (·.1 == k)).map (·.2)
 def remove {α} (l : List (Nat × α)) (k : Nat) : List (Nat × α) := l.filter (·.1 != k)
@@ -76,6 +88,26 @@ def D.spawn (d : D) (tau : Nat) (k : Key) (undo : Option Key) : Option (D × Tid
   | none => match d.fire (.spawn t k true undo) with
     | some d' => some ({ d' with cur := insertA d'.cur tau t }, t)
     | none => none
+
+/-- `notify_waiters()` as the model has it: every parked companion whose entry is gone is woken -/
+def D.wakeAll (d : D) : D :=
+  d.cur.foldl (fun d (p : Nat × Tid) =>
+    match d.s.tasks p.2 with
+    | some T =>
+      (match T.frames with
+       | top :: _ =>
+         if T.pc == .waitC && (d.s.comp top.key).isNone then
+           (match d.fire (.wake p.2) with
+            | some d' => { d' with pendingWake := (p.1, top.key) :: d'.pendingWake }
+            | none => d)
+         else d
+       | [] => d)
+    | none => d) d
+
+def D.lostWake (d : D) : Option String :=
+  match d.pendingWake with
+  | [] => none
+  | l => some s!"REJECT lost wake-up: the entry of key(s) {",".intercalate ((l.map (·.2)).eraseDups.map toString)} was removed (the owner completed, was dropped or unwound) while task(s) {",".intercalate ((l.map (·.1)).eraseDups.map toString)} were parked on it; the model wakes the waiter (`wake` is enabled, theorem cancel_wakes_waiters), the code never did"
 
 def showGlue : Glue → String
   | .unlock k => s!"unlock {k}" | .bpunlock k => s!"bpunlock {k}" | .unreg k => s!"unreg {k}"
@@ -299,6 +331,24 @@ def handle (d : D) (tau : Nat) (op : String) (args : List Nat) : Except String D
   | "dropbp", [_] => d.beginGlue tau
   | "unreg", [k] => d.expect tau (.unreg k)
   | "gdetach", [] => d.expect tau .detach
+  | "companion", [] => pure { d with companions := tau :: d.companions }
+  | "wait", [k] =>
+    let d := { d with keys := insSorted k d.keys }
+    let (d, t) ← (match d.task tau with
+      | some (t, T) =>
+        (match T.frames with
+         | top :: _ =>
+           if top.key = k ∧ T.pc = .start then pure (d, t)
+           else if isIdleRoot T then do
+             let d ← need (d.fire (.hit t)) "hit (root return) not enabled"
+             need (d.spawn tau k none) "spawn not enabled"
+           else throw s!"wait {k}: the task is busy with key {top.key}"
+         | [] => throw "wait from a session task")
+      | none => need (d.spawn tau k none) "spawn not enabled")
+    need (d.fire (.waitC t)) s!"waitC {k} not enabled (there is no computing entry of {k} to wait for)"
+  | "woken", [k] =>
+    if d.pendingWake.contains (tau, k) then pure { d with pendingWake := d.pendingWake.erase (tau, k) }
+    else throw s!"woken {k}: the model's entry of {k} has not been removed"
   | "panic", [k] =>
     (match d.task tau with
      | some (t, T) =>
@@ -343,14 +393,14 @@ def process (d : D) (line : String) : D × String :=
     (match parseNat? tauS with
      | some _ => ({ d with cutPending := true }, "ok")
      | none => (d, "bad-op"))
-  | ["0", "dropped"] => orReject d (finishDrop d)
-  | ["0", "settled"] => let d := d.retire; (d, d.summary)
-  | ["0", "end"] => let d := d.retire; (d, d.summary)
+  | ["0", "dropped"] => let (d, r) := orReject d (finishDrop d); (d.wakeAll, r)
+  | ["0", "settled"] => let d := d.retire; (match d.lostWake with | some e => ({ d with rejects := d.rejects + 1, pendingWake := [] }, e) | none => (d, d.summary))
+  | ["0", "end"] => let d := d.retire; (match d.lostWake with | some e => ({ d with rejects := d.rejects + 1, pendingWake := [] }, e) | none => (d, d.summary))
   | tauS :: op :: rest =>
     (match parseNat? tauS, rest.mapM parseNat? with
      | some tau, some args =>
        (match handle d tau op args with
-        | .ok d' => (d', "ok")
+        | .ok d' => (d'.wakeAll, "ok")
         | .error "bad-op" => (d, "bad-op")
         | .error e => ({ d with rejects := d.rejects + 1 }, s!"REJECT {e}"))
      | _, _ => (d, "bad-op"))
